@@ -189,3 +189,29 @@ def who_may_evaluate(ctx: Ctx, rule: str):
     if not obs:
         obs.append(ctx.ob(rule, None, None, subject="pyhms", loc="-", detail=f"{n} functions of the sprouting / stop-condition / reporting / helper modules: none reaches the objective", construct="no-eval-modules"))
     return obs
+
+
+def objective_function(ctx: Ctx, f: FuncInfo, arg: ast.AST):
+    """Resolve the callable handed to an external optimiser to (kind, node, owner FuncInfo | None, return exprs):
+    kind in {"method-ref" (bound method such as self._problem.evaluate), "lambda", "def", "unknown"}."""
+    defs = local_defs(f)
+    e = arg
+    hops = 0
+    while isinstance(e, ast.Name) and e.id in defs and len(defs[e.id]) == 1 and hops < 4 and e.id not in f.nested:
+        e = defs[e.id][0]
+        hops += 1
+    if isinstance(e, ast.Lambda):
+        return "lambda", e, None, [e.body]
+    if isinstance(e, ast.Name) and e.id in f.nested:
+        nf = f.nested[e.id]
+        rets = [r.value for r in ast.walk(nf.node) if isinstance(r, ast.Return) and r.value is not None]
+        return "def", nf.node, nf, rets
+    selfn = (f.self_name() if f.parent is None else f.parent.self_name()) or "self"
+    if isinstance(e, ast.Attribute) and isinstance(e.value, ast.Name) and e.value.id == selfn and f.cls is not None:
+        m = ctx.prog.lookup_method(f.cls, e.attr)
+        if m is not None and not m.is_property:
+            rets = [r.value for r in ast.walk(m.node) if isinstance(r, ast.Return) and r.value is not None]
+            return "def", m.node, m, rets
+    if isinstance(e, ast.Attribute):
+        return "method-ref", e, None, []
+    return "unknown", e, None, []
